@@ -61,6 +61,12 @@ class Unencodable(object):
     def __eq__(self, other):
         return isinstance(other, Unencodable)
 
+    def __deepcopy__(self, memo):
+        return self
+
+    def __copy__(self):
+        return self
+
     __hash__ = None
 
 
